@@ -396,6 +396,25 @@ def py_binop(op, a, b, ctx):
         return SSetZ(a.kind, z3.SetDifference(a.z, b.z))
     if op == "&" and isinstance(a, SSetZ) and isinstance(b, SSetZ):
         return SSetZ(a.kind, z3.SetIntersect(a.z, b.z))
+    if isinstance(a, SXReal) or isinstance(b, SXReal):
+        # time arithmetic: exact real arithmetic on finite values (A-real-time: binary64 rounding ignored)
+        if not (is_num(a) and is_num(b)) or isinstance(a, SFloat) or isinstance(b, SFloat):
+            raise PyExc("TypeError")
+        xa, xb = to_xreal(a), to_xreal(b)
+        ctx.assume(z3.And(z3.Not(xa.nan), z3.Not(xb.nan), xa.inf == 0, xb.inf == 0), "A-real-time: timestamps finite; float rounding ignored")
+        if op == "+":
+            r = xa.r + xb.r
+        elif op == "-":
+            r = xa.r - xb.r
+        elif op == "*":
+            r = xa.r * xb.r
+        elif op == "/":
+            if ctx.decide(xb.r == 0, "divzero"):
+                raise PyExc("ZeroDivisionError")
+            r = xa.r / xb.r
+        else:
+            raise Unsupported(f"extended-real binop {op}")
+        return SXReal(z3.BoolVal(False), z3.IntVal(0), r)
     if is_intlike(a) and is_intlike(b):
         x, y = int_z(a), int_z(b)
         if op == "+":
